@@ -142,6 +142,9 @@ def loader_functions(prog, an, pubs):
                             nk.add(j)
                     if nk:
                         work.append((g, frozenset(nk)))
+        if not has_load:
+            # the bytes may be fetched by a helper this function hands the key pointer to
+            has_load = any(l.addr.root[0] == "arg" and l.addr.root[1] in ks for (l, w) in an.summaries[f.key].reads.values())
         if has_load and any(i["op"] == "alloca" for i in f.all_insts()):
             out.setdefault(f.key, set()).update(ks)
     return out
